@@ -1,6 +1,6 @@
 // ---- prelude_vm.rs: the machine state of src/vm.rs as Verus sees it (R8) ---------------------------
-// VM and Frame have the fields of the real structs (VM's `gc: GC` field is left out: during a run the collector
-// is the `gc` parameter of run_code, which the arm units take as a parameter as well). The five helpers whose bodies use unsafe
+// VM and Frame have exactly the fields of the real structs (during a run the collector is the `gc` PARAMETER of
+// run_code - VM::run moves it out of the `gc` field and back - so the arm units take it as a parameter as well). The five helpers whose bodies use unsafe
 // unchecked access (read_u8, read_u16, next, pop) carry ASSUMED contracts here; each is PROVED on the real
 // method by the Kani obligation named next to it. The remaining helpers are verified verbatim in unit c02_helpers.
 
@@ -14,6 +14,7 @@ pub struct VM {
     pub instructions: Vec<u8>,
     pub ip: usize,
     pub bp: u16,
+    pub gc: GC,
 }
 
 
